@@ -418,6 +418,12 @@ func checkC06(c *Ctx) string {
 	// 4. bulk builders: overlay for every new index; Builder.Add result used
 	r4 := "C06.4 K8+K18 bulk index builders cover every index and honour the builder's verdict"
 	checkBuilderAddUsed(c, r4)
+	// 5. writers that predate an exclusive period (index build on a populated table) are refused by all three write actions
+	checkC01Matrix(c, "C06.5 K9 all write actions of the checker refuse transactions that predate an exclusive index build")
+	// 6. persisted key composition of existing indexes
+	checkBestKeyStability(c, "C06.6 K2+K11 BestKey is computed only for indexes being added")
+	// 7. a failing index mutation kills the transaction
+	checkMutationAbortWrapper(c, t, "C06.7 K4 index mutations run under recover→Abort→re-panic")
 	return "Static shape of index maintenance: every Overlay.Insert/Delete/Update in UpdateTran is ti.Indexes[i].m(keys[i],…) directly inside a loop over the schema's index list with the same " +
 		"induction variable, every iteration mutates, the loop is never left early; in update the same-key branch uses Update and the changed-key branch Delete+Insert; meta.Apply applies Apply2 " +
 		"to every index on a cloned list and stores the result back; bulk builders use the result of Builder.Add. Not decided: key computation, merge algorithms."
@@ -561,6 +567,7 @@ func checkC07(c *Ctx) string {
 		}
 	}
 	c.Floor(r1, ndup, 2, "dupOutputBlock call sites")
+	checkDupRecArg(c, t, "C07.1b K11 the duplicate check judges the record whose key it checks")
 
 	// 2. dupOutputBlock itself
 	r2 := "C07.2 K4c dupOutputBlock: needsDupCheck ⇒ lookup ⇒ panic on hit, read registered on miss"
@@ -828,6 +835,10 @@ func checkC08(c *Ctx) string {
 
 	// ---- 2. mode predicates over the finite domain of Fkey.Mode
 	checkC08Modes(c, t)
+
+	// ---- 3. every foreign-key scan registers its range (shared with C01.3)
+	checkSilentScans(c, t.db19A, "C08.3 K6 foreign-key scans register the range they looked at")
+	checkCascadeValueMapping(c, t, "C08.6 K11 cascaded key values are read by column position in the target table")
 
 	// ---- 3/4. cascades recurse through Delete / update (so C06/C07/C44 apply to cascaded rows)
 	r4 := "C08.4 K13 cascades go through UpdateTran.Delete / update"
@@ -1209,6 +1220,7 @@ func checkC44(c *Ctx) string {
 		c.Obl(r2, "DisableTrigger adds exactly what EnableTrigger removes", "", deltas["db19.(*triggers).DisableTrigger"] == 1 && deltas["db19.(*triggers).EnableTrigger"] == -1 && len(deltas) == 2,
 			fmt.Sprintf("counter changes per function: %v", deltas))
 	}
+	checkEnabledDecides(c, "C44.2b K11 enabled(table) decides from that table's disable count")
 	// call2 dominated by enabled(table) true edge
 	r3 := "C44.3 K4c the trigger runs only while enabled, and its failure propagates"
 	enabled := p.DeclaredMethod("db19", "triggers", "enabled")
